@@ -862,6 +862,7 @@ func (g *Gen) MutateWPlus(b *Bundle) WPlusInfo {
 	b.Feat.WPlus = true
 	n := 1 + g.r.Intn(3)
 	used := map[string]bool{}
+	protected := map[string]bool{}
 	for i := 0; i < n; i++ {
 		holders := [][]string{}
 		for _, h := range opLevelHolders(root) {
@@ -889,7 +890,8 @@ func (g *Gen) MutateWPlus(b *Bundle) WPlusInfo {
 			pos := schemaPositions(root)
 			defsOnly := [][]string{}
 			for _, p := range pos {
-				if p[0] == "definitions" && len(p) > 2 {
+				// (never inside a definition another mutation planted: that would undo what it claims)
+				if p[0] == "definitions" && len(p) > 2 && !protected[p[1]] {
 					defsOnly = append(defsOnly, p)
 				}
 			}
@@ -1010,6 +1012,7 @@ func (g *Gen) MutateWPlus(b *Bundle) WPlusInfo {
 			defs.Ch[bb] = mk("u", []string{"root", "definitions", a, "properties", "t"})
 			defs.Ch[c] = mk("p", []string{"root", "definitions", bb, "properties", "u"})
 			g.defs["root"] = append(g.defs["root"], a, bb, c)
+			protected[a], protected[bb], protected[c] = true, true, true
 			root.Get(holders[0]).At["$ref"] = []string{"root", "definitions", c, "properties", "p"}
 			info.Unresolvable = true
 			info.Kinds = append(info.Kinds, "pointer-cycle-with-tail")
